@@ -48,6 +48,9 @@ def make_list(rng, fmt):
         nrep = int(rng.integers(1, 4))
         for r in range(nrep):
             base['%s|r%d' % (e, r + 1)] = gen.make_idl(rng, str(rng.choice(['contig', 'strided', 'irregular'])), int(rng.integers(6, 14)))
+            if rng.random() < 0.4:
+                # lists that agree in replica name, first configuration and length with those of other files of this session, and differ in between
+                base['%s|r%d' % (e, r + 1)] = gen.make_idl(rng, str(rng.choice(['contig', 'strided', 'irregular', 'gapped'])), 8, first=1)
     kind = str(rng.choice(['real', 'real', 'ints', 'intmean']))
     covs = []
     if fmt == 'dobs' and rng.random() < 0.5:
@@ -84,6 +87,8 @@ def make_list(rng, fmt):
             for c in covs:
                 if rng.random() < 0.7:
                     o = o + float(np.round(rng.normal(), 3) or 0.5) * float(rng.choice([1.0, 1.0, 1e-9])) * c
+            if len(covs) > 1 and rng.random() < 0.4:
+                o = o + 0.75 * (covs[0] - covs[1])           # gradient components that cancel in the sum are a dependence all the same
         out.append(o)
     return out, kind
 
@@ -105,12 +110,16 @@ def cases_for(rng, n, ctx, tmp):
             o.tag = None
         before = doc_any(ol)
         dn0 = analysis_numbers(ol)
+        # an alternative ensemble tag is a label in the file, nothing else (not combined with the mode that re-derives names from the tag)
+        ekw = {}
+        if fmt == 'dobs' and mk != 'true' and rng.random() < 0.3:
+            ekw = {'enstags': {e: 'tag of ' + e for o in ol for e in o.mc_names}}
         if fmt == 'dobs':
             if transport == 'file':
-                r = _quiet(lambda: pe.input.dobs.write_dobs(ol, fn, 'nm', who='c12', gz=gz))
+                r = _quiet(lambda: pe.input.dobs.write_dobs(ol, fn, 'nm', who='c12', gz=gz, **ekw))
                 y = r if isinstance(r, Exception) else _quiet(lambda: pe.input.dobs.read_dobs(fn, gz=gz, separator_insertion=mv))
             else:
-                s = _quiet(lambda: pe.input.dobs.create_dobs_string(ol, 'nm', who='c12'))
+                s = _quiet(lambda: pe.input.dobs.create_dobs_string(ol, 'nm', who='c12', **ekw))
                 y = s if isinstance(s, Exception) else _quiet(lambda: pe.input.dobs.import_dobs_string(s.encode('utf-8'), separator_insertion=mv))
         else:
             r = _quiet(lambda: pe.input.dobs.write_pobs(ol, fn, 'nm', gz=gz))
